@@ -9,6 +9,12 @@ import UgoVerif.Proofs.VMExec
   a try statement leaves no handler behind, a pending jump/return recorded by
   FINALIZER is resumed by THROW 0, a pending error is re-thrown by THROW 0.
   These are the three repairs of commit 5ac371b stated as theorems.
+  Delivery of a thrown error: `handle_delivers_to_catch`, `handle_enters_finally`,
+  `handle_skips_exhausted` (a handler whose catch and finally are consumed never intercepts:
+  a caught error is not raised into the same statement again), `searchFrames_nearest` and
+  `throwF_goes_to_nearest_caller` (the error of a function without a live handler reaches
+  the NEAREST calling frame that has one, which becomes current again — repair 9eeb286),
+  `throwF_unhandled` (no live handler anywhere: the error is returned from Run).
 
   The source-level statement `C03_full` (every script's log/outcome equals the
   reference semantics Spec/Sem) is NOT proved; it is tested by stream `sem`
@@ -127,6 +133,157 @@ theorem setupTry_pushes (s : State) (c f : Nat) (hc : s.curFrame < s.frames.size
   refine ⟨rfl, ?_, rfl, rfl⟩
   unfold handlersOf
   simp [hc, Array.getElem_modify, hfr]
+
+/-! ### delivery of a thrown error (vm.go throw / handleThrownError) -/
+
+set_option linter.unusedSimpArgs false
+
+/-- `handleThrownError` with a live catch clause: the error is recorded in the statement's handler,
+    control goes to the catch address, the operand stack is cut back to the height recorded at
+    SETUPTRY, and the error is not propagated further. -/
+theorem handle_delivers_to_catch (fuel : Nat) (err : Addr) (s : State) (h : Handler) (r : List Handler)
+    (hc : s.curFrame < s.frames.size) (hh : handlersOf s = some (h :: r)) (hcatch : h.catch_ > 0)
+    (hsp : s.sp < h.sp) :
+    exec (throwF.handle fuel err) s = (.ok none,
+      { s with frames := s.frames.modify s.curFrame (fun f => setLast f fun h => { h with err := some err }),
+               ip := h.catch_ - 1, sp := h.sp }) := by
+  have hfr : s.frames[s.curFrame]! = s.frames[s.curFrame] := by simp [hc]
+  have hh' : s.frames[s.curFrame].handlers = some (h :: r) := by
+    unfold handlersOf at hh; rw [hfr] at hh; exact hh
+  unfold throwF.handle
+  simp only [exec_bind, exec_setCurFrame, exec_curFrame]
+  have hl : lastHandler (({ s with frames := s.frames.modify s.curFrame (fun f => setLast f fun h => { h with err := some err }) } : State).frames[s.curFrame]!)
+      = some { h with err := some err } := by
+    simp [hc, Array.getElem_modify, setLast, lastHandler, hh']
+  simp only [hl]
+  have hns : ¬ (s.sp ≥ h.sp) := by omega
+  simp [hcatch, exec_bind, exec_setIp, exec_getSp, hns]
+  rfl
+
+theorem lastHandler_setLast (s : State) (h : Handler) (r : List Handler) (g : Handler → Handler)
+    (hc : s.curFrame < s.frames.size) (hh : handlersOf s = some (h :: r)) :
+    lastHandler (({ s with frames := s.frames.modify s.curFrame (fun f => setLast f g) } : State).frames[s.curFrame]!)
+      = some (g h) := by
+  have hfr : s.frames[s.curFrame]! = s.frames[s.curFrame] := by simp [hc]
+  have hh' : s.frames[s.curFrame].handlers = some (h :: r) := by
+    unfold handlersOf at hh; rw [hfr] at hh; exact hh
+  simp [hc, Array.getElem_modify, setLast, lastHandler, hh']
+
+/-- no live catch clause but a pending finally block: control goes to the finally address with the
+    error recorded as the statement's pending outcome (THROW 0 re-throws it afterwards) -/
+theorem handle_enters_finally (fuel : Nat) (err : Addr) (s : State) (h : Handler) (r : List Handler)
+    (hc : s.curFrame < s.frames.size) (hh : handlersOf s = some (h :: r)) (hcatch : h.catch_ = 0)
+    (hfin : h.finally_ > 0) (hsp : s.sp < h.sp) :
+    exec (throwF.handle fuel err) s = (.ok none,
+      { s with frames := s.frames.modify s.curFrame (fun f => setLast f fun h => { h with err := some err }),
+               ip := h.finally_ - 1, sp := h.sp }) := by
+  unfold throwF.handle
+  simp only [exec_bind, exec_setCurFrame, exec_curFrame]
+  simp only [lastHandler_setLast s h r _ hc hh]
+  have hns : ¬ (s.sp ≥ h.sp) := by omega
+  simp [hcatch, hfin, exec_bind, exec_setIp, exec_getSp, hns]
+  rfl
+
+/-- a handler whose catch and finally were both consumed (the error was raised inside its catch
+    or finally body) does not intercept: it is removed and the error propagates to the next
+    enclosing handler -/
+theorem handle_skips_exhausted (fuel : Nat) (err : Addr) (s : State) (h : Handler) (r : List Handler)
+    (hc : s.curFrame < s.frames.size) (hh : handlersOf s = some (h :: r)) (hcatch : h.catch_ = 0)
+    (hfin : h.finally_ = 0) :
+    exec (throwF.handle fuel err) s = exec (throwF fuel err)
+      { s with frames := (s.frames.modify s.curFrame (fun f => setLast f fun h => { h with err := some err })).modify s.curFrame popHandler } := by
+  unfold throwF.handle
+  simp only [exec_bind, exec_setCurFrame, exec_curFrame]
+  simp only [lastHandler_setLast s h r _ hc hh]
+  simp [hcatch, hfin, exec_bind, exec_setCurFrame]
+
+theorem frames_modify_lt (fs : Array Frame) (n j : Nat) (g : Frame → Frame) (h : j ≠ n) :
+    (fs.modify n g)[j]! = fs[j]! := by
+  by_cases hj : j < fs.size
+  · simp [hj, Array.getElem_modify, Ne.symm h]
+  · simp [hj]
+
+/-- the frame search of `throw`: it stops at the NEAREST frame below the failing one that has a
+    handler — every frame it skipped had none (and is released) — or finds none at all. -/
+theorem searchFrames_nearest (n : Nat) (s : State) (hn : n ≤ frameSize) :
+    (∃ k s', exec (searchFrames n) s = (.ok (some k), s') ∧ k < n ∧ hasHandler (s.frames[k]!) = true ∧
+        (∀ j, k < j → j < n → hasHandler (s.frames[j]!) = false) ∧
+        (∀ j, j ≤ k → s'.frames[j]! = s.frames[j]!) ∧ s'.stack = s.stack ∧ s'.sp = s.sp ∧ s'.heap = s.heap) ∨
+    (∃ s', exec (searchFrames n) s = (.ok none, s') ∧ (∀ j, j < n → hasHandler (s.frames[j]!) = false) ∧
+        s'.stack = s.stack ∧ s'.sp = s.sp ∧ s'.heap = s.heap) := by
+  induction n generalizing s with
+  | zero => right; exact ⟨s, rfl, by intro j hj; omega, rfl, rfl, rfl⟩
+  | succ n ih =>
+    have hlt : ¬ (n ≥ frameSize) := by omega
+    unfold searchFrames
+    simp only [hlt, if_false, exec_bind, exec_getS]
+    by_cases hh : hasHandler (s.frames[n]!) = true
+    · left
+      refine ⟨n, s, ?_, by omega, hh, ?_, fun _ _ => rfl, rfl, rfl, rfl⟩
+      · simp [hh, exec_pure]
+      · intro j h1 h2; omega
+    · simp only [hh, if_false, exec_modS]
+      have hh' : hasHandler (s.frames[n]!) = false := by simpa using hh
+      rcases ih { s with frames := s.frames.modify n fun f => { f with free := none, fn := none } } (by omega) with
+        ⟨k, s', he, hk, hhk, hsk, hfr, h1, h2, h3⟩ | ⟨s', he, hall, h1, h2, h3⟩
+      · left
+        refine ⟨k, s', he, by omega, ?_, ?_, ?_, h1, h2, h3⟩
+        · rw [← hhk]; simp [frames_modify_lt _ _ _ _ (Nat.ne_of_lt hk)]
+        · intro j hj1 hj2
+          by_cases hjn : j = n
+          · subst hjn; exact hh'
+          · have := hsk j hj1 (by omega)
+            simpa [frames_modify_lt _ _ _ _ hjn] using this
+        · intro j hj
+          rw [hfr j hj]; simp [frames_modify_lt _ _ _ _ (show j ≠ n by omega)]
+      · right
+        refine ⟨s', he, ?_, h1, h2, h3⟩
+        intro j hj
+        by_cases hjn : j = n
+        · subst hjn; exact hh'
+        · have := hall j (by omega)
+          simpa [frames_modify_lt _ _ _ _ hjn] using this
+
+/-- an error raised in a function without a live handler goes to the NEAREST calling frame that
+    has one: the frames in between are released, that frame becomes the current frame again
+    (at the instruction pointer it saved when it made the call) and its handler takes the error -/
+theorem throwF_goes_to_nearest_caller (fuel : Nat) (err : Addr) (s : State)
+    (hcur : hasHandler (s.frames[s.curFrame]!) = false) (hfi : (s.frameIndex - 1).toNat ≤ frameSize)
+    (k : Nat) (hk : k < (s.frameIndex - 1).toNat) (hhk : hasHandler (s.frames[k]!) = true)
+    (hnear : ∀ j, k < j → j < (s.frameIndex - 1).toNat → hasHandler (s.frames[j]!) = false)
+    (hfn : (s.frames[k]!).fn ≠ none) :
+    ∃ s' : State, (∀ j, j ≤ k → s'.frames[j]! = s.frames[j]!) ∧ s'.stack = s.stack ∧ s'.sp = s.sp ∧ s'.heap = s.heap ∧
+      exec (throwF (fuel + 1) err) s =
+        exec (throwF.handle fuel err) { s' with frameIndex := (k : Int) + 1, curFrame := k, ip := (s.frames[k]!).ip } := by
+  rcases searchFrames_nearest (s.frameIndex - 1).toNat s hfi with
+    ⟨k', s', he, hk', hhk', hsk, hfr, h1, h2, h3⟩ | ⟨s', he, hall, _, _, _⟩
+  · have hkk : k' = k := by
+      rcases Nat.lt_trichotomy k' k with h | h | h
+      · have := hsk k h hk; simp [hhk] at this
+      · exact h
+      · have := hnear k' h hk'; simp [hhk'] at this
+    subst hkk
+    refine ⟨s', hfr, h1, h2, h3, ?_⟩
+    unfold throwF
+    simp only [exec_bind, exec_curFrame, hcur, Bool.false_eq_true, ↓reduceIte, exec_getS, he]
+    have hfk : s'.frames[k']! = s.frames[k']! := hfr k' (Nat.le_refl _)
+    cases hf : (s.frames[k']!).fn with
+    | none => exact absurd hf hfn
+    | some fa =>
+      simp [exec_bind, exec_pure, exec_modS, exec_curFrame, exec_setIp, hfk, hf]
+  · have := hall k hk; simp [hhk] at this
+
+/-- no frame has a live handler: the error is not intercepted and becomes the error returned by Run -/
+theorem throwF_unhandled (fuel : Nat) (err : Addr) (s : State)
+    (hcur : hasHandler (s.frames[s.curFrame]!) = false) (hfi : (s.frameIndex - 1).toNat ≤ frameSize)
+    (hnone : ∀ j, j < (s.frameIndex - 1).toNat → hasHandler (s.frames[j]!) = false) :
+    (exec (throwF (fuel + 1) err) s).1 = .ok (some err) := by
+  rcases searchFrames_nearest (s.frameIndex - 1).toNat s hfi with
+    ⟨k', s', he, hk', hhk', _⟩ | ⟨s', he, hall, _, _, _⟩
+  · have := hnone k' hk'; simp [hhk'] at this
+  · unfold throwF
+    simp only [exec_bind, exec_curFrame, hcur, Bool.false_eq_true, ↓reduceIte, exec_getS, he]
+    simp [exec_bind, exec_pure]
 
 /-- the source-level statement (not proved; tested by stream `sem`): for every script of the
     try/loop/call fragment, the implementation's log and outcome are those of the reference
